@@ -430,6 +430,18 @@ fn run_all_inspections(
             None,
         )?;
 
+        // a failing inspection command fails the verification
+        if let MetadataWrapper::Link(link) = &metablock.metadata {
+            if link.byproducts.return_value() != Some(0) {
+                return Err(Error::VerificationFailure(format!(
+                    "inspection '{}' command {:?} failed with return value {:?}",
+                    inspect.name(),
+                    inspect.run,
+                    link.byproducts.return_value(),
+                )));
+            }
+        }
+
         // dump the metadata
         let filename = format!("{}.link", inspect.name());
         std::fs::write(filename, serde_json::to_string_pretty(&metablock)?)?;
